@@ -196,4 +196,7 @@ pub fn run(g: &mut Global) {
     if g.tier == Tier::Thorough {
         g.random("deep", 3000, &move || strategy(64, true), &check);
     }
+    if g.tier == Tier::Thorough {
+        g.fuzz_stage("ops_equiv", Some(0), 2_000_000, "random", &|b| crate::fuzzdec::decode_c04(b), &check);
+    }
 }
